@@ -393,6 +393,9 @@ class Runner:
         opi = []
         if n != "construct":
             opi = [self.idx(op["i"])] + ([self.idx(op["j"])] if "j" in op else [])
+            op = dict(op, i=opi[0])       # record the resolved register numbers (readable replays)
+            if "j" in op:
+                op["j"] = opi[1]
         before = [snap(self.pool[i]) for i in opi]
         saved = [copy.deepcopy(self.pool[i]) for i in opi] if n in INPLACE_OPS else None
         try:
